@@ -1081,7 +1081,7 @@ def parse_tree_to_objgraph(
 
                 # final check that everything went ok
                 for m in models:
-                    assert len(get_children_of_type(Postponed.__class__, m)) == 0
+                    assert not get_children(lambda x: type(x) is Postponed, m)
 
                     # We have model loaded and all link resolved
                     # So we shall do a depth-first call of object
